@@ -494,7 +494,8 @@ func pickNets(r *rng, u *universe, max int) []cidr {
 type ruleOpts struct {
 	allowPass bool
 	ipver     bool // explicit ip_version (the checker ignores it on the pinned tree)
-	ood       bool // features outside the common fragment: ICMP type, named ports
+	ood       bool // features outside the common fragment: ICMP type match, negated CIDRs of the other family
+	named     bool // named-port sets (never hit in the checker of the pinned tree)
 	simple    bool
 }
 
@@ -604,10 +605,12 @@ func genRule(r *rng, u *universe, o ruleOpts) *grule {
 					g.notDstNets = []cidr{mkCIDR(other)}
 				}
 			}
-			if r.chance(15) && (g.proto == 6 || g.proto == 17) {
+		}
+		if o.named {
+			if r.chance(25) && (g.proto == 6 || g.proto == 17) {
 				g.dstNamed = []int{nNetSets + 1 + r.intn(nPortSets)}
 			}
-			if r.chance(6) && (g.proto == 6 || g.proto == 17) {
+			if r.chance(8) && (g.proto == 6 || g.proto == 17) {
 				g.notDstNamed = []int{nNetSets + 1 + r.intn(nPortSets)}
 			}
 		}
@@ -700,7 +703,7 @@ type caseOpts struct {
 }
 
 // checker variant of the tree under test
-type kvariant struct{ profilePassNext, defaultLenient, ipver, trie bool }
+type kvariant struct{ profilePassNext, defaultLenient, ipver, trie, named bool }
 
 var kv kvariant
 
@@ -712,7 +715,8 @@ func genEndpoint(r *rng, u *universe, o *caseOpts) ([]*gtier, []*gprofile) {
 	if o.feat == "profile-pass" && r.chance(50) {
 		nT = r.intn(2)
 	}
-	ro := ruleOpts{allowPass: true, ipver: kv.ipver || o.feat == "ipver" || o.feat == "ood", ood: o.feat == "ood"}
+	ro := ruleOpts{allowPass: true, ipver: kv.ipver || o.feat == "ipver" || o.feat == "ood", ood: o.feat == "ood",
+		named: kv.named || o.feat == "named" || o.feat == "ood"}
 	var tiers []*gtier
 	polN := 0
 	for t := 0; t < nT; t++ {
@@ -1248,8 +1252,13 @@ func probeChecker() (v kvariant, err error) {
 	w4.nets[1] = []cidr{mkCIDR("10.0.0.0/25")}
 	c4 := mk(nil, []*gprofile{{name: "a", in: []*grule{with(func(g *grule) { g.action = "allow"; g.srcSets = []int{1} })}}}, w4, tcp)
 	v.trie = c4 == 0
-	if c1 > 1 || c2 == 2 || c2 > 3 || c3 > 1 || c4 > 1 {
-		err = fmt.Errorf("cannot tell the checker variant of this tree: probe statuses %d %d %d %d", c1, c2, c3, c4)
+	// 5. IP_AND_PORT set {10.0.0.2,tcp:80}, profile [allow tcp to named port in set], flow to 10.0.0.2:80
+	w5 := &setWorld{nets: make([][]cidr, nNetSets+1), ports: make([][]pmember, nNetSets+nPortSets+1), missing: map[int]bool{}}
+	w5.ports[5] = []pmember{{addr: u.addrs[1], proto: 6, port: 80}}
+	c5 := mk(nil, []*gprofile{{name: "a", in: []*grule{with(func(g *grule) { g.action = "allow"; g.proto = 6; g.dstNamed = []int{5} })}}}, w5, tcp)
+	v.named = c5 == 0
+	if c1 > 1 || c2 == 2 || c2 > 3 || c3 > 1 || c4 > 1 || c5 > 1 {
+		err = fmt.Errorf("cannot tell the checker variant of this tree: probe statuses %d %d %d %d %d", c1, c2, c3, c4, c5)
 	}
 	return
 }
@@ -1497,7 +1506,7 @@ func buildCase(r *rng, o *caseOpts, u *universe, tiers []*gtier, profs []*gprofi
 	if v6 {
 		vc = "V6"
 	}
-	kvCoq := fmt.Sprintf("(Build_kvariant %v %v %v %v)", kv.profilePassNext, kv.defaultLenient, kv.ipver, kv.trie)
+	kvCoq := fmt.Sprintf("(Build_kvariant %v %v %v %v %v)", kv.profilePassNext, kv.defaultLenient, kv.ipver, kv.trie, kv.named)
 	stateCoq := fmt.Sprintf("%s\n %s\n %s", tiersCoq, profsCoq, w.coq())
 	coq := fmt.Sprintf("(Build_case %s %s\n %s\n %v\n %s %s\n \"%s\" %s\n \"%s\" %s\n %v %d %d %d %d\n %s\n %s\n [%s])%%N",
 		kvCoq, vc, stateCoq, o.guard, ipt.cfgCoq, nft.cfgCoq, ipt.name, ipt.chainsCoq, nft.name, nft.chainsCoq,
@@ -1531,6 +1540,9 @@ func buildCase(r *rng, o *caseOpts, u *universe, tiers []*gtier, profs []*gprofi
 	for _, g := range allRules {
 		if g.ipver != 0 {
 			tags = append(tags, "rule-has-ip-version")
+		}
+		if len(g.dstNamed)+len(g.notDstNamed) > 0 {
+			tags = append(tags, "rule-has-named-port")
 		}
 	}
 	if o.feat != "" {
@@ -1595,6 +1607,10 @@ func witness(r *rng, feat string) (*line, error) {
 		w.nets[1] = []cidr{mkCIDR("10.0.0.0/25")}
 		a, b := both(with(func(g *grule) { g.action = "allow"; g.srcSets = []int{1} }))
 		profs = []*gprofile{{name: "prof0", in: a, out: b}}
+	case "named":
+		w.ports[5] = []pmember{{addr: u.addrs[1], proto: 6, port: 80}}
+		a, b := both(with(func(g *grule) { g.action = "allow"; g.proto = 6; g.dstNamed = []int{5} }))
+		profs = []*gprofile{{name: "prof0", in: a, out: b}}
 	}
 	c, err := buildCase(r, o, u, tiers, profs, w, []packet{tcp, udp})
 	if err != nil {
@@ -1622,7 +1638,7 @@ func main() {
 		fail(perr)
 	}
 	stats["checker_variant"] = fmt.Sprintf("%+v", kv)
-	feats := []string{"profile-pass", "default-unset", "ipver", "trie"}
+	feats := []string{"profile-pass", "default-unset", "ipver", "trie", "named"}
 	for _, f := range feats {
 		c, err := witness(r, f)
 		if err != nil {
@@ -1647,6 +1663,8 @@ func main() {
 		case x < 8:
 			o.feat = "trie"
 		case x < 10:
+			o.feat = "named"
+		case x < 12:
 			o.feat, o.guard = "ood", false
 		}
 		u := newUniverse(o.ver)
